@@ -35,7 +35,7 @@ def rv(r):
 def main():
     pat = sys.argv[1]
     crates = sys.argv[2].split(",") if len(sys.argv) > 2 else None
-    fd = sorted(glob.glob(os.path.join(os.path.dirname(os.path.abspath(__file__)), "..", ".cache", "facts", "*-default")), key=os.path.getmtime)[-1]
+    fd = facts.latest()
     db = facts.DB(fd, crates)
     for f in db.fns.values():
         if pat not in f.id: continue
